@@ -624,6 +624,23 @@ def job_stream(pid, ctx, n_random=None):
                 want = {a[k_] for a in am_ if k_ in a}
                 if want and v_ not in want:
                     s.oracle_failures.append((i, c, ta, f"[C09] run marker {k_} saw the job as current:previous = {v_}; the documented state machine shows {' or '.join(sorted(want))} there (P pending, R running, F<n> finished with status n, - none)"))
+        # C06 "delivers the requested signal to the running process immediately": a signal (child, number) that EVERY admissible run of the model
+        # delivers — the model signals in the step that handles the graceful control (graceful_stop_step, signalChild_log) — and the real task
+        # delivers less often, or later than in every admissible run, was not delivered as requested
+        def sigs(t):
+            out = {}
+            for e in t.split("|"):
+                f = e.split(":")
+                if f[1:2] == ["signal"] and len(f) >= 4: out.setdefault((f[2], f[3]), []).append(int(f[0]))
+            return out
+        if job_norm(ta) not in alts and alts:
+            isg = sigs(ta); asg = [sigs(a) for a in alts]
+            for key in sorted(set.intersection(*[set(a) for a in asg])):
+                need = min(len(a[key]) for a in asg); got_ = isg.get(key, [])
+                if len(got_) < need:
+                    s.oracle_failures.append((i, c, ta, f"[C06] signal {key[1]} was delivered to {key[0]} {len(got_)} time(s); every admissible run of the documented machine delivers it {need} time(s) (at {sorted(set(t_ for a in asg for t_ in a[key]))} ms): a graceful control did not deliver its signal"))
+                elif got_ and need and min(got_) > max(min(a[key]) for a in asg):
+                    s.oracle_failures.append((i, c, ta, f"[C06] signal {key[1]} reached {key[0]} at {min(got_)} ms; the graceful control that requests it delivers it immediately, at {max(min(a[key]) for a in asg)} ms at the latest"))
         def kills(t): return {e.split(":")[2]: int(e.split(":")[0]) for e in t.split("|") if ":kill:" in e}
         ik = kills(ta)
         if ik and job_norm(ta) not in alts:
@@ -1041,6 +1058,12 @@ def c15_streams(ctx):
     for i in range(240 if ctx["thorough"] else 120):
         behs = r.choice(["irsic", "iic", "sc", "isse", "ic", "se", "iisc", "rsie"])
         cases.append(f"x{i} 1 {behs} " + ",".join(f"v{j}:e" for j in range(r.randint(7, 10))))
+    # the same sentence from another side: the critical error is raised while ANOTHER worker (the fs worker, a path that cannot be watched)
+    # has an error to report and the error hook is still tearing down a queue of errors whose payloads are slow to drop (`E` verdicts, `C`
+    # behaviour, capacity 64 so the action worker is not the one that blocks): whichever worker notices the closed channel, the main task ends
+    # with the handler's critical error
+    for i in range(24 if ctx["thorough"] else 8):
+        cases.append(f"xw{i} 64 {r.choice(['sC', 'C', 'isC'])} " + ",".join(f"v{j}:E" for j in range(r.randint(8, 11))))
     impl, culprits, fatal = core.run_chunks("wxerr", cases, 1, 1500 if ctx["thorough"] else 400)
     if fatal: s.error = fatal; return [s]
     hung = [(cases.index(c), c, "", f"Watchexec gave no answer on this fault script (stopped processing?): {why}") for c, why in culprits]
@@ -1055,9 +1078,9 @@ def c15_streams(ctx):
         f = dict(x.split("=", 1) for x in o.split(" ")[1:])
         handled = [h for h in f["handled"].split(",") if h]
         names = [h[2:] if h.startswith("N:") else h for h in handled]
-        errs = ["inj-" + e.split(":")[0] for e in evs.split(",") if e.endswith(":e")]
+        errs = ["inj-" + e.split(":")[0] for e in evs.split(",") if e.endswith(":e") or e.endswith(":E")]
         order = names + [e for e in errs if e not in names]
-        lines.append(f"ERR\t{cap}\t{beh}\t{','.join(order)}")
+        lines.append(f"ERR\t{cap}\t{beh.replace('C', 'c')}\t{','.join(order)}")
         parsed.append((c, o, f, handled, names, errs, [e.split(":")[0] for e in evs.split(",") if e.endswith(":p")]))
     (d / "cases.txt").write_text("\n".join(lines) + "\n")
     (d / "impl.txt").write_text("\n".join(outs) + "\n")
@@ -1077,7 +1100,7 @@ def c15_streams(ctx):
             if sorted(names) != sorted(errs): what = f"errors raised {sorted(errs)} but handled {sorted(names)} although nothing was elevated"
             elif sorted(acts) != sorted(passes): what = f"accepted events {sorted(passes)} but delivered {sorted(acts)}: an error stopped event processing"
         elif len(set(acts)) != len(acts) or not set(acts) <= set(passes): what = f"delivered events {acts} are not a duplicate-free subset of the accepted ones {passes}"
-        behs_used = (c.split(" ")[2][:len(handled)] if c.split(" ")[2] != "-" else "")
+        behs_used = (c.split(" ")[2][:len(handled)].replace("C", "c") if c.split(" ")[2] != "-" else "")
         if f["main"] == "running" and any(b in "ec" for b in behs_used): what = "the handler elevated / raised a critical error but the main task kept running"
         # "the main task ends with THAT critical error": the first elevating / critical call decides (e -> Elevated, c -> the External one it raised)
         first = next((b for b in behs_used if b in "ec"), None)
